@@ -1,6 +1,6 @@
 import Goyang.Model.Identity
 import Goyang.Spec.Identity
-import Goyang.Lemmas.IdentitySpec
+import Goyang.Lemmas.IdentityLink
 /-
 C11 — each identity lists exactly its transitive derivations, once, in fixed order.
 Property theorems only; helper lemmas live in Goyang/Lemmas/Identity*.lean.
@@ -23,9 +23,11 @@ Reading aid.
 Hypotheses that appear, and why.
 * `o.Valid`: the oracle visits every map entry exactly once.
 * `Linked r lk`: the include statements of every part of the schema are linked.  That is what
-  `ms.include` establishes when no include/import fails; failing ones are reported by `process`
-  as "no such (sub)module" and are outside this property (the runner only checks that report).
-* `WellFormed r`: (a) the module table holds modules only — an invariant of `Modules.add`;
+  `ms.include` establishes when no include/import fails (`include_establishes_linked`); failing
+  ones are reported by `process` as "no such (sub)module" and are outside this property (the runner
+  only checks that report).  `process_end_to_end` has neither this hypothesis nor (a) below.
+* `WellFormed r`: (a) the module table holds modules only — an invariant of `Modules.add`
+  (`loaded_module_table`);
   (b) no module name contains a colon (YANG identifiers never do) — otherwise `m:a:b` is
   ambiguous in Go's string-keyed dictionary; (c) no two identity statements of the schema define the
   same vertex (RFC 7950 §7.18; module names unique) — with duplicates, or with two revisions of one
@@ -38,7 +40,8 @@ open Goyang.Spec.Identity (Reach closure Graph graph Derives Acyclic AllBasesRes
   OneStatementPerVertex refTarget names Vertex)
 open Goyang.Lemmas.Identity (LinkOK Hyp RegOK resolveIdentities_graph vtxLt_iff vtxLt_strictTotal
   sorted_unique graph_facts GraphFacts derives_left_vertex resolve_agrees buildDict_spec
-  closure_spec walk_nil pairwise_before regOK_of_entries linkOK_of_all acyclic_of_rank)
+  closure_spec walk_nil pairwise_before regOK_of_entries linkOK_of_all acyclic_of_rank
+  regOK_of_loadAll linkAll_spec)
 
 /-- The include statements of every part of the schema are linked (see the header). -/
 abbrev Linked (r : Registry) (lk : Link) : Prop := LinkOK r lk
@@ -239,6 +242,49 @@ theorem identityref_needs_base (r : Registry) (dict : Dict) (m : Mod) (ty : Stmt
     (h : ty.one? "base" = none) : ∃ err, identityrefBase r dict m ty = .error err := by
   unfold identityrefBase
   simp [h]
+
+/-! ### end to end: load, link, resolve -/
+
+/-- `Modules.add` keeps modules, and only modules, in the module table: part (a) of `WellFormed`
+holds of whatever was loaded. -/
+theorem loaded_module_table (files : List SrcFile) (r : Registry) (h : loadAll files = .ok r) :
+    ∀ k m, r.getModule k = some m → m.isSub = false :=
+  regOK_of_loadAll h
+
+/-- `ms.include` over all modules (any map order) never exhausts the recursion budget, and when it
+reports no error the hypothesis `Linked` of the theorems above holds of the links it leaves. -/
+theorem include_establishes_linked (r : Registry) (o : Oracle) (ho : o.Valid) :
+    ∃ lk errs, linkAll o r = some (lk, errs) ∧ (errs = [] → Linked r lk) :=
+  linkAll_spec o ho r
+
+/-- The whole of what `Process` does for identities, from the loaded texts, for every map order:
+either an include/import is reported missing, or every identity of the schema gets the ascending
+list of exactly its derived identities and an error is reported exactly when a base names no
+identity, an included submodule has no loaded owner, or an identity is derived from itself.  The
+model never runs out of recursion budget.  (Remaining hypotheses: module names without colon,
+one identity statement per vertex.) -/
+theorem process_end_to_end (files : List SrcFile) (r : Registry) (hload : loadAll files = .ok r)
+    (hnc : ∀ m ∈ r.mods, ':' ∉ m.name.toList) (G : Graph) (hG : graph r = some G)
+    (hone : OneStatementPerVertex G) (o : Oracle) (ho : o.Valid) :
+    (∃ errs, run o r = .linkFailed errs ∧ errs ≠ []) ∨
+    (∃ res, run o r = .done res (identityrefLeaves r res.dict) ∧
+      (∀ i ∈ G.verts, ValuesOK G i (res.vals i)) ∧
+      (res.errs ≠ [] ↔ (G.dangling ≠ [] ∨ G.orphans ≠ [] ∨ ∃ v, Derives G v v))) := by
+  obtain ⟨lk, lerrs, hlink, hlinked⟩ := linkAll_spec o ho r
+  have hw : WellFormed r := ⟨regOK_of_loadAll hload, hnc, fun G' hG' => by
+    rw [hG] at hG'; cases hG'; exact hone⟩
+  unfold run
+  simp only [hlink]
+  cases lerrs with
+  | cons e es => exact Or.inl ⟨e :: es, by simp, by simp⟩
+  | nil =>
+    right
+    have hl : Linked r lk := hlinked rfl
+    obtain ⟨res, hres, hvals⟩ := values_are_derived r lk hl hw G hG o ho
+    obtain ⟨res', hres', herr⟩ := errors_iff r lk hl hw G hG o ho
+    rw [hres] at hres'
+    cases hres'
+    exact ⟨res, by simp [hres], hvals, herr⟩
 
 /-! ### non-vacuity: a diamond across two modules, one corner in a sub-submodule
 
